@@ -16,6 +16,7 @@ import (
 	"time"
 
 	corev1 "k8s.io/api/core/v1"
+	apierrors "k8s.io/apimachinery/pkg/api/errors"
 	metav1 "k8s.io/apimachinery/pkg/apis/meta/v1"
 	"k8s.io/apimachinery/pkg/apis/meta/v1/unstructured"
 	"k8s.io/apimachinery/pkg/runtime"
@@ -27,6 +28,8 @@ import (
 	"sigs.k8s.io/controller-runtime/pkg/event"
 	"sigs.k8s.io/controller-runtime/pkg/reconcile"
 
+	"package-operator.run/internal/constants"
+	"package-operator.run/internal/controllers"
 	"package-operator.run/internal/dynamiccache"
 )
 
@@ -41,11 +44,14 @@ import (
 //              started on their own goroutines -> per-call results + final state (judged by linearizability)
 
 type cacheOp struct {
-	Op  string `json:"op"`  // watch | free | get | list | owners
-	O   int    `json:"o"`   // owner index
-	G   int    `json:"g"`   // kind index
-	Out string `json:"out"` // ok | get | sync | hf | del
-	K   int    `json:"k"`   // index of the failing AddEventHandler call for out == hf
+	Op string `json:"op"` // watch | free | get | list | owners | finalize | ensure
+	// finalize: controllers.FreeCacheAndRemoveFinalizer(owner o), ensure: controllers.EnsureCachedFinalizer(owner o)
+	Patch string `json:"patch"` // how the API server answers the finalizer patch: ok | notfound | conflict | internal | lost
+	Fin   bool   `json:"fin"`   // the owner object in hand carries the cached finalizer
+	O     int    `json:"o"`     // owner index
+	G     int    `json:"g"`     // kind index
+	Out   string `json:"out"`   // ok | get | sync | hf | del
+	K     int    `json:"k"`     // index of the failing AddEventHandler call for out == hf
 }
 
 type cacheEvent struct {
@@ -61,6 +67,73 @@ type cacheStepObs struct {
 	// Res: result of OwnersForGKV when that was the op: {"nil":true} or {"owners":[..]}
 	Res  *ownersRes `json:"res,omitempty"`
 	Snap []*[]int   `json:"snap"` // OwnersForGKV of every kind after the op; null = nil slice
+	// finalize / ensure only
+	Sent *bool  `json:"sent,omitempty"` // a finalizer patch reached the API server
+	Ret  string `json:"ret,omitempty"`  // nil | free (error from Cache.Free) | patch (error from the patch)
+}
+
+// patchClient is a client.Client whose Patch is scripted; nothing else is used by the finalizer helpers.
+type patchClient struct {
+	client.Client
+	outcome string
+	sent    bool
+	body    string
+}
+
+var errLostResponse = errors.New("scripted: connection reset while reading the patch response")
+
+func (p *patchClient) Patch(_ context.Context, obj client.Object, patch client.Patch, _ ...client.PatchOption) error {
+	p.sent = true
+	if b, err := patch.Data(obj); err == nil {
+		p.body = string(b)
+	}
+	gr := schema.GroupResource{Resource: "configmaps"}
+	switch p.outcome {
+	case "notfound":
+		return apierrors.NewNotFound(gr, obj.GetName())
+	case "conflict":
+		return apierrors.NewConflict(gr, obj.GetName(), errors.New("resourceVersion changed"))
+	case "internal":
+		return apierrors.NewInternalError(errors.New("etcd leader changed"))
+	case "lost":
+		return errLostResponse
+	}
+	return nil
+}
+
+// finalizerStep runs the real finalizer helper of internal/controllers for owner o.
+func (r *cacheRig) finalizerStep(op cacheOp) (string, bool, error) {
+	owner := ownerObject(op.O)
+	if op.Fin {
+		owner.SetFinalizers([]string{constants.CachedFinalizer})
+	}
+	owner.SetResourceVersion("7")
+	pc := &patchClient{outcome: op.Patch}
+	ctx := context.Background()
+	var err error
+	switch op.Op {
+	case "finalize":
+		err = controllers.FreeCacheAndRemoveFinalizer(ctx, pc, owner, r.c)
+	case "ensure":
+		err = controllers.EnsureCachedFinalizer(ctx, pc, owner)
+	}
+	ret := "nil"
+	switch {
+	case err == nil:
+	case errors.Is(err, errScriptedDelete):
+		ret = "free"
+	case pc.sent:
+		ret = "patch"
+	default:
+		return "", false, fmt.Errorf("finalizer helper failed in an unexpected way: %w", err)
+	}
+	if pc.sent {
+		has := strings.Contains(pc.body, constants.CachedFinalizer)
+		if (op.Op == "finalize") == has {
+			return "", false, fmt.Errorf("unexpected finalizer patch body %s", pc.body)
+		}
+	}
+	return ret, pc.sent, nil
 }
 
 type ownersRes struct {
@@ -539,7 +612,20 @@ func (r *cacheRig) step(op cacheOp) (cacheStepObs, error) {
 		return cacheStepObs{}, err
 	}
 
-	cls, res, err := r.call(op)
+	var (
+		cls  string
+		res  *ownersRes
+		err  error
+		sent *bool
+		ret  string
+	)
+	if op.Op == "finalize" || op.Op == "ensure" {
+		var s bool
+		ret, s, err = r.finalizerStep(op)
+		cls, sent = "none", &s
+	} else {
+		cls, res, err = r.call(op)
+	}
 	if err != nil {
 		return cacheStepObs{}, err
 	}
@@ -548,7 +634,7 @@ func (r *cacheRig) step(op cacheOp) (cacheStepObs, error) {
 	evs := append([]cacheEvent{}, m.log...)
 	m.failGet, m.failAdd, m.failDelete = "", -1, false
 	m.mu.Unlock()
-	return cacheStepObs{Err: cls, Events: evs, Res: res, Snap: r.snapshot()}, nil
+	return cacheStepObs{Err: cls, Events: evs, Res: res, Snap: r.snapshot(), Sent: sent, Ret: ret}, nil
 }
 
 type cacheScenario struct {
